@@ -265,22 +265,44 @@ theorem encTernary_eq {q : Nat} (hq : 2 ≤ q) {v : Int} (h1 : -1 ≤ v) (h2 : v
     have : (1 : Int) % (q : Int) = 1 := Int.emod_eq_of_lt (by omega) (by omega)
     rw [this]; rfl
 
-theorem encError_eq {q : Nat} {v : Int} (h1 : -21 ≤ v) (h2 : v ≤ 21) (hq : 21 < q) :
+theorem neg_emod_nat (n q : Nat) (hq : 0 < q) :
+    (-(n : Int)) % (q : Int) = if n % q = 0 then 0 else ((q - n % q : Nat) : Int) := by
+  have hd : q * (n / q) + n % q = n := Nat.div_add_mod n q
+  have hm : n % q < q := Nat.mod_lt n hq
+  have hdi : (n : Int) = (q : Int) * ((n / q : Nat) : Int) + ((n % q : Nat) : Int) := by
+    rw [← Int.natCast_mul, ← Int.natCast_add, hd]
+  by_cases h0 : n % q = 0
+  · rw [if_pos h0]
+    rw [h0] at hdi
+    have : -(n : Int) = (q : Int) * (-((n / q : Nat) : Int)) := by rw [hdi]; simp [Int.mul_neg]
+    rw [this, Int.mul_emod_right]
+  · rw [if_neg h0]
+    have e : -(n : Int) = ((q - n % q : Nat) : Int) + (q : Int) * (-((n / q : Nat) : Int) - 1) := by
+      rw [Int.mul_sub, Int.mul_neg, Int.mul_one, Int.natCast_sub (Nat.le_of_lt hm)]
+      rw [hdi]; omega
+    rw [e, Int.add_mul_emod_self_left]
+    exact Int.emod_eq_of_lt (by omega) (by omega)
+
+/-- the (repaired) error encoding is the canonical residue of the signed value, for EVERY modulus `q ≥ 1`
+    and every value (no bound needed) -/
+theorem encError_eq {q : Nat} (hq : 0 < q) (v : Int) :
     encError q v = .ok (v % (q : Int)).toNat := by
   unfold encError
+  rw [if_neg (by omega)]
+  have hm : v.natAbs % q < q := Nat.mod_lt _ hq
   by_cases hv : v ≥ 0
-  · rw [if_pos hv]
-    have : v % (q : Int) = v := Int.emod_eq_of_lt hv (by omega)
-    rw [this]
-  · rw [if_neg hv]
-    simp only [ckSub]
-    rw [if_pos (by omega)]
+  · rw [if_pos (Or.inl hv)]
+    have e : v = ((v.natAbs : Nat) : Int) := (Int.natAbs_of_nonneg hv).symm
     congr 1
-    have : v % (q : Int) = v + q := by
-      have e : (v + q) % (q : Int) = v % q := Int.add_emod_right v q
-      rw [← e]
-      exact Int.emod_eq_of_lt (by omega) (by omega)
-    rw [this]; omega
+    conv => rhs; rw [e, ← Int.natCast_emod, Int.toNat_natCast]
+  · have e : v = -((v.natAbs : Nat) : Int) := Int.eq_neg_natAbs_of_nonpos (by omega)
+    have hn := neg_emod_nat v.natAbs q hq
+    rw [← e] at hn
+    by_cases h0 : v.natAbs % q = 0
+    · rw [if_pos (Or.inr h0), hn, if_pos h0, h0]; rfl
+    · rw [if_neg (by intro h; rcases h with h | h; exact hv h; exact h0 h)]
+      simp only [ckSub]
+      rw [if_pos (Nat.le_of_lt hm), hn, if_neg h0, Int.toNat_natCast]
 
 theorem encodeAll_eq (enc : Nat → Int → R Nat) (g : Nat → Int → Nat) (moduli : List Nat) (vs : List Int)
     (h : ∀ q ∈ moduli, ∀ v ∈ vs, enc q v = .ok (g q v)) :
@@ -320,7 +342,7 @@ theorem cbdDraw_spec (hx : ByteXof xof) (s : St) (v : Int) (s' : St) (hs : ByteS
   exact ⟨cbdValue_bound _ (fillBytes_length s _) h1, h2⟩
 
 theorem centeredBinomial_spec (hx : ByteXof xof) {s s' : St} (hs : ByteSt s) {n : Nat}
-    {moduli : List Nat} {c : List (List Nat)} (hq : ∀ q ∈ moduli, 21 < q)
+    {moduli : List Nat} {c : List (List Nat)} (hq : ∀ q ∈ moduli, 2 ≤ q)
     (h : centeredBinomial xof s n moduli = .ok (c, s')) :
     ∃ vs : List Int, vs.length = n ∧ (∀ v ∈ vs, -21 ≤ v ∧ v ≤ 21) ∧
       c = moduli.map (fun (q : Nat) => vs.map fun v => (v % (q : Int)).toNat) ∧ ByteSt s' := by
@@ -332,7 +354,7 @@ theorem centeredBinomial_spec (hx : ByteXof xof) {s s' : St} (hs : ByteSt s) {n 
     obtain ⟨l1, p1, b1⟩ := sampleMany_spec (cbdDraw xof) (fun v => -21 ≤ v ∧ v ≤ 21)
       (fun s v s' hs he => cbdDraw_spec hx s v s' hs he) n s vs s1 hs h1
     have he := encodeAll_eq encError (fun q v => (v % (q : Int)).toNat) moduli vs
-      (fun q hq' v hv => encError_eq (p1 v hv).1 (p1 v hv).2 (hq q hq'))
+      (fun q hq' v _ => encError_eq (by have := hq q hq'; omega) v)
     rw [he] at h
     simp only [Except.ok.injEq, Prod.mk.injEq] at h
     obtain ⟨rfl, rfl⟩ := h
